@@ -20,11 +20,13 @@ PATHS = [
     ("xeofs/single/sparse_pca.py", "SparsePCA", ["_fit_algorithm"]),
     ("xeofs/single/pop.py", "POP", ["_fit_algorithm"]),
     ("xeofs/single/opa.py", "OPA", ["_fit_algorithm", "_compute_matrix_inverse", "_Ctau"]),
-    ("xeofs/single/eof_rotator.py", "EOFRotator", ["fit", "_fit_algorithm"]),
+    ("xeofs/single/eof_rotator.py", "EOFRotator", ["fit", "_fit_algorithm", "_compute_rot_mat_inv_trans"]),
     ("xeofs/cross/cpcca.py", "CPCCA", ["_fit_algorithm", "_compute_cross_matrix", "_compute_total_squared_covariance"]),
-    ("xeofs/cross/cpcca_rotator.py", "CPCCARotator", ["fit", "_fit_algorithm"]),
+    ("xeofs/cross/cpcca_rotator.py", "CPCCARotator", ["fit", "_fit_algorithm", "_compute_rot_mat_inv_trans"]),
 ]
-NUMPY_ONLY = {"np.linalg.inv", "np.linalg.eig", "np.linalg.eigh", "np.linalg.pinv", "np.linalg.svd"}
+# numpy.linalg routines that dask arrays dispatch to a lazy dask implementation (__array_function__); every other
+# np.linalg.* routine applied to a dask array computes it on the spot
+DASK_LAZY = {"np.linalg.inv", "np.linalg.svd", "np.linalg.qr", "np.linalg.cholesky", "np.linalg.solve", "np.linalg.lstsq", "np.linalg.norm"}
 COMPUTE_CALLS = {"dask.compute", "dask.base.compute", "compute", "dask_compute"}
 
 
@@ -56,7 +58,7 @@ def scan(fn, cls, rel):
             return None
         f = try_dotted(call.args[0]) or ""
         allowed = any(kw.arg == "dask" and isinstance(kw.value, ast.Constant) and kw.value.value == "allowed" for kw in call.keywords)
-        if allowed and (f in NUMPY_ONLY or f.split(".")[-1].startswith("_np_")):
+        if allowed and ((f.startswith("np.linalg.") and f not in DASK_LAZY) or f.split(".")[-1].startswith("_np_")):
             return f
         return None
 
